@@ -484,7 +484,8 @@ impl Ranges {
                     return value.populate(args, foreign_key, locale, key_path);
                 }
             }
-            unreachable!("plurals validity should already have been checked.");
+            // integer ranges are not required to cover their whole type, so a literal count can match no branch
+            Err(Error::MissingFallback(T::TYPE).into())
         }
         fn try_from<T, U: TryFrom<T, Error = TryFromIntError>>(
             count: T,
